@@ -24,6 +24,7 @@ RULE = ('Hypothesis generates SED files (2..20 wavelengths in either storage ord
         'and requested units of different families (F_nu, F, L); distinct = distinct canonical JSON.')
 RULE += (' ' + "Files in double or single precision ('E' columns), a quarter with faint fluxes (x 1e-16); cells whose value or intermediate leaves the single-precision range are not compared.")
 RULE += (' ' + 'The FREQUENCY / WAVELENGTH columns (and the frequencies handed to convert_flux) are typed in Hz, MHz, GHz or THz / micron, nm or cm.')
+RULE += (' ' + 'HDU 3 of the generated files holds the compulsory columns alone or with the optional stellar columns (own unit), in any order.')
 ASSUMPTIONS = [
     'relative tolerance 1e-12 (a handful of float multiplications)',
     'luminosity-type values follow L = F*d^2 as the property states (no 4 pi)',
@@ -57,7 +58,11 @@ def cases(draw):
             # model packages store SEDs in single precision ('E' columns); the faint ends of real SEDs reach 1e-30 mJy
             'dtype': draw(st.sampled_from(['D', 'D', 'E'])), 'faint': draw(st.integers(0, 3)) == 0,
             # the units the spectral columns of the file are typed in ("any frequency grid")
-            'nu_unit': draw(st.sampled_from(['Hz', 'Hz', 'GHz', 'THz', 'MHz'])), 'wav_unit': draw(st.sampled_from(['um', 'um', 'nm', 'cm']))}
+            'nu_unit': draw(st.sampled_from(['Hz', 'Hz', 'GHz', 'THz', 'MHz'])), 'wav_unit': draw(st.sampled_from(['um', 'um', 'nm', 'cm'])),
+            # HDU 3 of the file: the two compulsory columns alone, or with the documented optional stellar columns (in their own
+            # unit), in any order ("The order of the columns is not important")
+            'hdu3_layout': draw(st.sampled_from(['standard', 'standard', 'stellar_last', 'stellar_first', 'err_first', 'interleaved'])),
+            'stellar_unit': draw(st.sampled_from([None, 'Jy', 'mJy', 'erg/cm2/s']))}
 
 
 NU_FACTOR = {'Hz': 1., 'HZ': 1., 'MHz': 1e6, 'GHz': 1e9, 'THz': 1e12}
@@ -99,6 +104,8 @@ def run_case(case, ctx):
         wav_unit = 'MICRONS' if legacy else case.get('wav_unit', 'um')
         nfac, wfac = NU_FACTOR[nu_unit], WAV_FACTOR[wav_unit]
         labels.add('spectral_columns_in_%s_%s' % (nu_unit, wav_unit))
+        stellar_unit = None if case.get('stellar_unit') is None else SPELL[case['stellar_unit']][0]
+        labels.add('hdu3_' + case.get('hdu3_layout', 'standard'))
         file_nu = [v / nfac for v in pkgio.wav_to_nu(swav)]
         file_wav = [w * wfac for w in swav]
 
@@ -108,7 +115,8 @@ def run_case(case, ctx):
         pkgio.write_sed_file(path, 'x', file_wav, file_nu, case['apertures'],
                              [[row[i] for i in idx] for row in case['flux']], [[row[i] for i in idx] for row in err],
                              flux_unit=case['spelling'], err_unit=espell, distance_cm=None if case['distance_kpc'] is None else dcm,
-                             wav_unit=wav_unit, nu_unit=nu_unit, dtype=case.get('dtype', 'D'))
+                             wav_unit=wav_unit, nu_unit=nu_unit, dtype=case.get('dtype', 'D'),
+                             hdu3_layout=case.get('hdu3_layout', 'standard'), stellar_unit=stellar_unit)
         with must_succeed('SED.read(unit_flux=%s) of a file stored in %r' % (B, case['spelling'])):
             s = SED.read(path, unit_flux=U(B), order='wav')
         got = np.asarray(s.flux.to(U(B)).value)
@@ -119,13 +127,13 @@ def run_case(case, ctx):
                 nu = nu_hz(wav[p])
                 want = om.convert_flux_ref(case['flux'][a][p], nu, A, B, dcm)
                 wante = om.convert_flux_ref(err[a][p], nu, E, B, dcm)
-                if abs(sw[p] - wav[p]) > (1e-6 if single else 1e-12) * wav[p]:
+                if not (abs(sw[p] - wav[p]) <= (1e-6 if single else 1e-12) * wav[p]):
                     fail('wavelength axis changed', 'c15:axis')
                 if not representable(want, wante, om.convert_flux_ref(case['flux'][a][p], nu, A, 'erg/cm2/s', dcm),
                                      om.convert_flux_ref(err[a][p], nu, E, 'erg/cm2/s', dcm)):
                     labels.add('value_outside_single_precision_range_not_compared')
                     continue
-                if abs(got[a][p] - want) > rtol * abs(want) or abs(gote[a][p] - wante) > rtol * abs(wante):
+                if not (abs(got[a][p] - want) <= rtol * abs(want)) or not (abs(gote[a][p] - wante) <= rtol * abs(wante)):
                     fail('file stored in %s (%r), distance %s: value %r at %r micron read as %r %s, F=nu*F_nu / L=F*d^2 give %r' % (
                         A, case['spelling'], 'absent (1 kpc)' if case['distance_kpc'] is None else '%r kpc' % case['distance_kpc'],
                         case['flux'][a][p], wav[p], got[a][p], B, want), 'c15:read_conversion')
@@ -135,7 +143,8 @@ def run_case(case, ctx):
         pkgio.write_sed_file(path2, 'y', file_wav, file_nu, case['apertures'],
                              [[row[i] for i in idx] for row in case['flux']], [[row[i] for i in idx] for row in err],
                              flux_unit=case['spelling'], err_unit=espell, distance_cm=d2cm,
-                             wav_unit=wav_unit, nu_unit=nu_unit, dtype=case.get('dtype', 'D'))
+                             wav_unit=wav_unit, nu_unit=nu_unit, dtype=case.get('dtype', 'D'),
+                             hdu3_layout=case.get('hdu3_layout', 'standard'), stellar_unit=stellar_unit)
         with must_succeed('SED.read of a second file'):
             s2 = SED.read(path2, unit_flux=U(B), order='wav')
         got2 = np.asarray(s2.flux.to(U(B)).value)
@@ -144,7 +153,7 @@ def run_case(case, ctx):
                 want = om.convert_flux_ref(case['flux'][a][p], nu_hz(wav[p]), A, B, d2cm)
                 if not representable(want, om.convert_flux_ref(case['flux'][a][p], nu_hz(wav[p]), A, 'erg/cm2/s', d2cm)):
                     continue
-                if abs(got2[a][p] - want) > rtol * abs(want):
+                if not (abs(got2[a][p] - want) <= rtol * abs(want)):
                     fail('a second file (same frequencies, distance %r cm instead of %r cm) stored in %s read as %s gives %r, '
                          'F=nu*F_nu / L=F*d^2 with ITS distance give %r' % (d2cm, dcm, A, B, got2[a][p], want), 'c15:distance_of_other_file')
         # the same SED written by the library's own writer (flux in A, errors in E) and read in B
@@ -168,7 +177,7 @@ def run_case(case, ctx):
                 nu_p = float(so.nu[p].to(u.Hz).value)
                 want = om.convert_flux_ref(case['flux'][a][p], nu_p, A, B, dcm)
                 wante = om.convert_flux_ref(err[a][p], nu_p, E, B, dcm)
-                if abs(g3[a][p] - want) > 1e-12 * abs(want) or abs(e3[a][p] - wante) > 1e-12 * abs(wante):
+                if not (abs(g3[a][p] - want) <= 1e-12 * abs(want)) or not (abs(e3[a][p] - wante) <= 1e-12 * abs(wante)):
                     fail('SED written by SED.write with flux in %s and errors in %s, read in %s: %r +- %r, expected %r +- %r' % (
                         A, E, B, g3[a][p], e3[a][p], want, wante), 'c15:library_written_file')
         # refused targets
